@@ -268,6 +268,15 @@ def dfxp_document(doc):
     return regions, elems
 
 
+def same_or_tie(a, b):
+    """two printed lengths: same unit and within one hundredth (binary64 result on the other side of a rounding tie), or a
+    negative length (outside the size language: the model's printer is not defined there)"""
+    if a.startswith("-") or b.startswith("-"):
+        return True
+    x, y = parse_len(a), parse_len(b)
+    return x is not None and y is not None and x[1] == y[1] and abs(x[0] - y[0]) <= Fraction(1, 100)
+
+
 def sami_blocks(doc):
     """{selector: {margin-top: .., ...}} of the stylesheet (declaration order is irrelevant in CSS)"""
     out = {}
@@ -713,6 +722,25 @@ def check_case(fmt, cfg, acs, printed, res, shape=None, cs=None, writer=None, hi
             res["disagreements"].append(dict(base, stream="writer", impl="document", model=repr(m)))
             return "dis"
         g, langs = m.v
+        # round 4: the margins as TEXT (model/Pos13Doc.v sami_doc_margins, request 1322: set-level block, then one block per
+        # language) against the stylesheet of the document
+        mt = r_result(oracle_batch([(1322, [wcfg, posgen.w_nset(pacs)])])[0])
+        if isinstance(mt, Ok):
+            mblocks = [dict((k, v) for k, v in b) for b in mt.v]
+            sels = ([".c1"] if acs.get("styles") else [None]) + ["." + lg["name"] for lg in pacs["langs"]]
+            for sel, mb in zip(sels, mblocks):
+                if sel is None:
+                    continue
+                got = {k: v for k, v in blocks.get(sel, {}).items() if k.startswith("margin-")}
+                key = "sami_margin_blocks_identical_to_the_model's_text(request 1322)"
+                if got == mb:
+                    info[key] = info.get(key, 0) + 1
+                elif set(got) == set(mb) and all(same_or_tie(got[k], mb[k]) for k in got):
+                    info["sami_margin_blocks_differing_by_a_rounding_tie_or_a_negative_length"] = \
+                        info.get("sami_margin_blocks_differing_by_a_rounding_tie_or_a_negative_length", 0) + 1
+                else:
+                    res["disagreements"].append(dict(base, stream="sami-margins-text", impl=repr((sel, got)), model=repr(mb)))
+                    return "dis"
         exp = {}
         for lg, (ll, _) in zip(pacs["langs"], langs):
             exp["." + lg["name"]] = ll
@@ -848,7 +876,7 @@ def stream_writers(ctx, res):
     rng = ctx.rng
     printed = Printed()
     outcomes = {}
-    n = ctx.n(700, 20000)
+    n = ctx.n(640, 20000)
     for i in range(n):
         fmt = ["dfxp", "sami", "vtt"][i % 3]
         rel = rng.random() < 0.75
